@@ -44,6 +44,10 @@ Proof. exact control_independent. Qed.
    arrived when the stream ends early. *)
 Theorem C02_upload_independent : forall chunks, upload_chunks chunks = upload_bytes (concat chunks).
 Proof. exact upload_independent. Qed.
+(* ... including the decision that the whole upload has arrived when a third (resource) fork is announced *)
+Theorem C02_upload_done_independent : forall chunks, upload_done_chunks chunks = upload_done_bytes (concat chunks).
+Proof. exact upload_done_independent. Qed.
+
 
 Theorem C02_payload_written_is_prefix :
   forall chunks n, let '(w, rest, ok) := copy_n n chunks in
@@ -70,3 +74,4 @@ Print Assumptions C02_stage_exact_consumption.
 Print Assumptions C02_control_session_independent.
 Print Assumptions C02_upload_independent.
 Print Assumptions C02_payload_written_is_prefix.
+Print Assumptions C02_upload_done_independent.
